@@ -34,6 +34,7 @@ type SequenceWaiter interface {
 type SequenceWaiterTracker interface {
 	io.Closer
 	AddSequenceWaiter(key string) *sequenceWaiter
+	AddSequenceWaiterFromLastKey(key string, readLastKey func() (string, error)) (*sequenceWaiter, error)
 	SequenceUpdated(prefixKey string, lastSequenceKey string)
 }
 
@@ -91,6 +92,30 @@ func (swt *sequenceWaiterTracker) AddSequenceWaiter(key string) *sequenceWaiter 
 	swt.Lock()
 	defer swt.Unlock()
 
+	return swt.addWithoutLock(key)
+}
+
+// AddSequenceWaiterFromLastKey adds a waiter that starts from the current last key of the sequence (if there
+// is one), as returned by readLastKey. No update is dispatched between the registration of the waiter and the moment
+// it receives this initial key: otherwise the initial key could replace a more recent one.
+func (swt *sequenceWaiterTracker) AddSequenceWaiterFromLastKey(key string, readLastKey func() (string, error)) (*sequenceWaiter, error) {
+	swt.Lock()
+	defer swt.Unlock()
+
+	sw := swt.addWithoutLock(key)
+	lastKey, err := readLastKey()
+	if err != nil {
+		sw.closeWithoutLock()
+		return nil, err
+	}
+
+	if lastKey != "" {
+		sw.och.WriteLast(lastKey)
+	}
+	return sw, nil
+}
+
+func (swt *sequenceWaiterTracker) addWithoutLock(key string) *sequenceWaiter {
 	im, existing := swt.waiters[key]
 	if !existing {
 		im = map[sequenceWaiterID]*sequenceWaiter{}
